@@ -1,4 +1,5 @@
 import CanvasModel.Path
+import CanvasModel.C10.Derive
 import CanvasGen.CoreF
 /-!
 # C10 — executable `Float` instance of the path-builder model and its line protocol
@@ -176,10 +177,122 @@ def parseLine (toks : List String) : Option (Build Float) := do
 
 def showData (d : List Float) : String := " ".intercalate (d.map hexOfFloat)
 
+/-! ### derivers: Reverse, Split, replace on the result of a history; verdict on raw arrays -/
+
+/-- decode a Float data array (driver side only; the proofs use the generic `decode`) -/
+def decodeF : Nat → List Float → Option (List (Cmd Float))
+  | _, [] => some []
+  | 0, _ => none
+  | n + 1, k :: t =>
+    if k == 1.0 then match t with
+      | x :: y :: _ :: t' => (decodeF n t').map (Cmd.move ⟨x, y⟩ :: ·)
+      | _ => none
+    else if k == 2.0 then match t with
+      | x :: y :: _ :: t' => (decodeF n t').map (Cmd.line ⟨x, y⟩ :: ·)
+      | _ => none
+    else if k == 32.0 then match t with
+      | x :: y :: _ :: t' => (decodeF n t').map (Cmd.close ⟨x, y⟩ :: ·)
+      | _ => none
+    else if k == 4.0 then match t with
+      | a :: b :: x :: y :: _ :: t' => (decodeF n t').map (Cmd.quad ⟨a, b⟩ ⟨x, y⟩ :: ·)
+      | _ => none
+    else if k == 8.0 then match t with
+      | a :: b :: c :: d :: x :: y :: _ :: t' => (decodeF n t').map (Cmd.cube ⟨a, b⟩ ⟨c, d⟩ ⟨x, y⟩ :: ·)
+      | _ => none
+    else if k == 16.0 then match t with
+      | rx :: ry :: phi :: f :: x :: y :: _ :: t' =>
+        (decodeF n t').map (Cmd.arc rx ry phi (f == 1.0 || f == 3.0) (f == 2.0 || f == 3.0) ⟨x, y⟩ :: ·)
+      | _ => none
+    else none
+
+def floats? (toks : List String) : Option (List Float) := toks.mapM floatOfHex?
+
+/-- split a token list at a separator token -/
+def splitAt (sep : String) : List String → List (List String)
+  | [] => [[]]
+  | t :: ts =>
+    match splitAt sep ts with
+    | [] => [[t]]
+    | s :: ss => if t == sep then [] :: s :: ss else (t :: s) :: ss
+
+def keyOf (start : Pt Float) (c : Cmd Float) : List Float :=
+  start.x :: start.y :: encodeCmd floatCodes c
+
+/-- keys are compared with the tolerance of `~` lines (the record may contain values computed through
+sin/cos, which differ in the last place between Go and libm) -/
+def keyClose : List Float → List Float → Bool
+  | [], [] => true
+  | a :: as, b :: bs => ((a == b) || (a - b).abs ≤ 1e-9 + 1e-9 * (max a.abs b.abs)) && keyClose as bs
+  | _, _ => false
+
+/-- `# start record : replacement` entries of an RP line -/
+def keyDist : List Float → List Float → Float
+  | a :: as, b :: bs => max (a - b).abs (keyDist as bs)
+  | _, _ => 0.0
+
+def parseReps : List (List String) → Option (List (List Float × RPath Float))
+  | [] => some []
+  | e :: es => do
+    match splitAt ":" e with
+    | [k, v] =>
+      let kf ← floats? k
+      let vf ← floats? v
+      let q ← decodeF vf.length vf
+      let rest ← parseReps es
+      pure ((kf, q.reverse) :: rest)
+    | _ => none
+
+/-- IEEE bit patterns of the command and flag values -/
+def bitsCodes : Codes UInt64 where
+  move := 0x3FF0000000000000
+  line := 0x4000000000000000
+  quad := 0x4010000000000000
+  cube := 0x4020000000000000
+  arc := 0x4030000000000000
+  close := 0x4040000000000000
+  flag l s := match l, s with
+    | false, false => 0
+    | true, false => 0x3FF0000000000000
+    | false, true => 0x4000000000000000
+    | true, true => 0x4008000000000000
+
+/-- `Point.Equals` on bit patterns -/
+def nearBits (a b : Pt UInt64) : Bool :=
+  GenF.Equal (Float.ofBits a.x) (Float.ofBits b.x) && GenF.Equal (Float.ofBits a.y) (Float.ofBits b.y)
+
+def bits? (toks : List String) : Option (List UInt64) := toks.mapM fun t => (parseHexNat? t).map UInt64.ofNat
+
 def handle : List String → Option String
   | "C10" :: toks => do
     let b ← parseLine toks
     pure (showData (encode floatCodes (b.eval floatGeo)))
+  | "RV" :: toks => do
+    let b ← parseLine toks
+    pure (showData (encode floatCodes (reverse floatGeo (b.eval floatGeo))))
+  | "SP" :: toks => do
+    let b ← parseLine toks
+    pure (" | ".intercalate ((split (b.eval floatGeo)).map fun p => showData (encode floatCodes p)))
+  | "RP" :: toks => do
+    match splitAt "#" toks with
+    | h :: es =>
+      let b ← parseLine h
+      let reps ← parseReps es
+      let rep := fun (start : Pt Float) (c : Cmd Float) =>
+        let k := keyOf start c
+        -- exact key first; otherwise the closest of the entries within tolerance
+        match reps.find? fun kv => kv.1 == k with
+        | some kv => some kv.2
+        | none =>
+          ((reps.filter fun kv => keyClose kv.1 k).foldl (fun (best : Option (Float × RPath Float)) kv =>
+            let dist := keyDist kv.1 k
+            match best with
+            | some (b, _) => if dist < b then some (dist, kv.2) else best
+            | none => some (dist, kv.2)) none).map (·.2)
+      pure (showData (encode floatCodes (replace floatGeo rep (b.eval floatGeo))))
+    | [] => none
+  | "W" :: toks => do
+    let d ← bits? toks
+    pure (if wfArray bitsCodes nearBits d then "ok" else "FAIL ill-framed")
   | _ => none
 
 end Canvas.C10
